@@ -65,8 +65,14 @@ func zzPayloadLen() int {
 func ZZ_C05_strict() {
 	n := zzPayloadLen()
 	payload := vBytes("payload", n)
-	if !vSymbolic() && n >= 4 {
-		copy(payload[n-4:], zzDsha(payload[:n-4])[:4])
+	if n >= 4 {
+		// checksum field = (true checksum) XOR (arbitrary delta): covers every byte string and
+		// replays natively with the real double-SHA256 and the same delta
+		delta := vBytes("ckdelta", 4)
+		ck := zzDsha(payload[:n-4])[:4]
+		for i := 0; i < 4; i++ {
+			payload[n-4+i] = ck[i] ^ delta[i]
+		}
 	}
 	k, err := zzParse(payload, false)
 	vReach("parsed")
